@@ -164,6 +164,9 @@ def mpe_case(ctx, inst, ug=None, cover=None, suite="K5.mpe", brute=True):
     kk = len(given) if given is not None else k_model
     if len(routes) > kk or len(ws) != len(routes) or len(sls) != len(routes):
         ctx.violation(f"{cls}: {len(routes)} {key} / {len(ws)} weights / {len(sls)} slacks for k={kk}", view, site=f"{cls}.shape")
+    if given is not None and inst.get("k") is not None and sum(1 for r in routes if len(r) > 0) > inst["k"]:
+        ctx.violation(f"{cls}: {sum(1 for r in routes if len(r) > 0)} non-empty {key} returned with given weights although k={inst['k']} "
+                      f"(the superset only offers weights, it does not raise the number of {key})", view, site=f"{cls}.shape")
     bad_type = (lambda x: not isinstance(x, int)) if wint else (lambda x: not isinstance(x, float))
     if any(bad_type(x) or x < (0 if wint else -1e-9) for x in ws + sls):
         ctx.violation(f"{cls}: weights {ws} / slacks {sls} are not non-negative numbers of type {inst['weight_type']}", view,
@@ -343,6 +346,29 @@ def deep_tail_instance(rng):
             "planted": {"routes": [light, hv], "weights": [qstr(w), qstr(heavy)]}}
 
 
+def given_more_than_k_instance(rng):
+    """two diamonds in series (width 2) whose values are explained exactly only by THREE paths; the weights of those paths
+    (and one more) are offered as the superset, but k = 2: two paths with some slack is all the model may return"""
+    w = rng.sample(range(1, 9), 3)
+    routes = [["s", "a", "m", "c", "t"], ["s", "b", "m", "d", "t"], ["s", "a", "m", "d", "t"]]
+    fl = {}
+    for r, x in zip(routes, w):
+        for e in zip(r[:-1], r[1:]):
+            fl[e] = fl.get(e, 0) + x
+    edges = list(fl); rng.shuffle(edges)
+    nodes = sorted({x for e in edges for x in e}); rng.shuffle(nodes)
+    extra = [rng.randint(1, 9)]
+    given = w + extra; rng.shuffle(given)
+    return {"cls": "kMinPathError", "nodes": nodes, "edges": [list(e) for e in edges], "origin": "edge", "weight_type": "int",
+            "ignore": [], "starts": [], "ends": [], "scaling": [], "options": {}, "flow": [[u, v, str(fl[(u, v)])] for (u, v) in edges],
+            "k": 2, "given_weights": [str(x) for x in given]}
+
+
+def run_given_more_than_k(ctx, rng, n, suite="K5.mpe_given_weights_longer_than_k"):
+    for _ in range(n):
+        mpe_case(ctx, given_more_than_k_instance(rng), suite=suite)
+
+
 def run_deep_tail(ctx, rng, n, suite="K5.mpe_deep_tail"):
     for _ in range(n):
         mpe_case(ctx, deep_tail_instance(rng), suite=suite, brute=False)
@@ -373,6 +399,7 @@ def run(ctx):
                 ctx.rep.sample({"instance": r[0], "last_run": {a: (qstr(b) if isinstance(b, Fraction) else b) for a, b in r[1].items()}})
     run_overshoot(ctx, rng, ctx.n(16, 80))
     run_deep_tail(ctx, rng, ctx.n(4, 30))
+    run_given_more_than_k(ctx, rng, ctx.n(4, 30))
 
 
 STRIP = ("solution", "brute_force_optimum", "cover", "has_factor_lt1", "has_factor_gt1")
